@@ -332,13 +332,21 @@ def x3(ctx):
                     if isinstance(ln, Lin) and len(ln.m) == 1 and ln.c == 0:
                         (a_, c_), = ln.m.items()
                         okx = c_ == 1 and tag(a_) == "mul" and (term_eq(a_[1], cn[2]) or term_eq(a_[2], cn[2]))
-                if not okx:
+                partial = False
+                if not okx and sbx is not None and len(cn) > 3 and cn[3] == "exact":
+                    # chunks_exact over a slice that need not be a whole number of chunks feeds all but its last len % n bytes: the position stops there,
+                    # and whoever comes next (`remainder()`) has to start there
+                    partial = True
+                elif not okx:
                     problems.append(("update-arg", ev_loc(ctx, e), "for_each over chunks of something that is not a whole number of chunks of a sub-slice of data: %s" % short(cn[1], 80)))
                     continue
                 fs = set(implied_facts(ctx.guards_of(ev, e)))
                 if not eq(fs, N(sbx[0]), pos):
                     problems.append(("gap-or-overlap", ev_loc(ctx, e), "the chunk loop starts at %s but %s bytes have been fed so far" % (short(N(sbx[0]), 60), short(N(pos), 60))))
                 pos = N(sbx[1])
+                if partial:
+                    ln_ = sub(N(sbx[1]), N(sbx[0]))
+                    pos = sub(N(sbx[1]), ("rem", ln_, N(cn[2])))
                 continue
             h_in = [h for h in heads if bb in loops[h]]
             if h_in and INV.get(h_in[0]) and INV[h_in[0]][0] == "chunks":
